@@ -189,7 +189,15 @@ def c18(tier, seed):
     return res
 
 
-CHECKS = {"C18": c18, "C16": c16, "C06": c06, "C07": c07, "C09": c09, "C08": c08, "C04": c04, "C05": c05, "C01": c01, "C10": c10, "C11": c11, "C12": c12}
+def c02(tier, seed):
+    return rel.check_split("C02", tier, seed, 90, 3000)
+
+
+def c13(tier, seed):
+    return rel.check_split("C13", tier, seed, 90, 3000)
+
+
+CHECKS = {"C13": c13, "C02": c02, "C18": c18, "C16": c16, "C06": c06, "C07": c07, "C09": c09, "C08": c08, "C04": c04, "C05": c05, "C01": c01, "C10": c10, "C11": c11, "C12": c12}
 
 
 def setup():
@@ -200,7 +208,7 @@ def setup():
 SPEC_OF = {"C01": ("Trace_EngineRel", "Trace_EngineRel_all.cfg"), "C10": ("Trace_EngineRel", "Trace_EngineRel_func.cfg"),
            "C11": ("Trace_EngineRel", "Trace_EngineRel_func.cfg"), "C12": ("Trace_EngineRel", "Trace_EngineRel_func.cfg"),
            "C04": ("Trace_Regex", None), "C05": ("Trace_Cfg", None), "C08": ("Trace_Numeric", None),
-           "C09": ("Trace_Count", None), "C16": ("Trace_Naive", None), "C18": ("Trace_EngineRel", "Trace_EngineRel_all.cfg"), "C06": ("Trace_Json", None), "C07": ("Trace_Json", None)}
+           "C09": ("Trace_Count", None), "C16": ("Trace_Naive", None), "C02": ("Trace_Split", None), "C13": ("Trace_Split", None), "C18": ("Trace_EngineRel", "Trace_EngineRel_all.cfg"), "C06": ("Trace_Json", None), "C07": ("Trace_Json", None)}
 
 
 def replay(prop, path):
